@@ -471,7 +471,23 @@ pub fn bulky_metadata(n: usize, seed: u64) -> Vec<(String, Meta)> {
 pub fn gen_metadata(d: &mut Dna, cfg: &GenCfg) -> Option<Vec<(String, Meta)>> {
 	match d.u8() {
 		0..=79 => None,
-		80..=245 => Some(gen_meta_map(d, cfg.metadata_depth, 8)),
+		80..=241 => Some(gen_meta_map(d, cfg.metadata_depth, 8)),
+		242..=245 => {
+			// wide: many sibling maps at depth 1-2 (the format bounds depth and string length, not the number of maps)
+			let n = [100usize, 126, 127, 128, 200, 300][d.below(6)] + d.below(3);
+			Some(
+				(0..n)
+					.map(|i| {
+						let v = match d.u8() {
+							0..=149 => Meta::Map(vec![]),
+							150..=219 => Meta::Map(vec![("characters".into(), Meta::Map(vec![(format!("{}", i % 26), Meta::Int(i as i32 - 64))]))]),
+							_ => Meta::Int(i as i32),
+						};
+						(format!("{}", i), v)
+					})
+					.collect(),
+			)
+		}
 		246..=249 => Some(bulky_metadata([20usize, 40, 150, 300][d.below(4)] + d.below(8), d.u8() as u64)),
 		_ => {
 			// a chain nested up to the format limit
